@@ -155,3 +155,30 @@ func VerifC15Clearance() {
 	vAssert(hl == 0 && vl == 0, "and no layer counts are reported")
 	vReach("end")
 }
+
+// VerifC15Corridor: the corridor query refuses a negative radius, nil points and invalid zooms.  The segment is the
+// degenerate one (both end points the same concrete point), so that the line is a single voxel and no recursion of
+// the line voxelisation (C06, not decided) is entered; the radius / zooms are symbolic.  Case which.
+func VerifC15Corridor() {
+	p, perr := object.NewPoint(139.75, 35.5, 10.0)
+	vAssume(perr == nil)
+	skip := vCase("skip") == 1
+	switch vCase("which") {
+	case 0:
+		r := vNondetFloat64("r")
+		vAssume(r < 0)
+		ids, err := GetExtendedSpatialIdsWithinRadiusOfLine(p, p, r, 20, 20, skip)
+		vAssert(err != nil && len(ids) == 0, "a negative radius is an error")
+	case 1:
+		h, v := vNondetInt64("h"), vNondetInt64("v")
+		vAssume(h < 0 || h > 35 || v < 0 || v > 35)
+		ids, err := GetExtendedSpatialIdsWithinRadiusOfLine(p, p, 1.0, h, v, skip)
+		vAssert(err != nil && len(ids) == 0, "zooms outside 0..35 are an error")
+	case 2:
+		ids, err := GetExtendedSpatialIdsWithinRadiusOfLine(nil, p, 1.0, 20, 20, skip)
+		vAssert(err != nil && len(ids) == 0, "a nil start point is an error")
+		ids, err = GetExtendedSpatialIdsWithinRadiusOfLine(p, nil, 1.0, 20, 20, skip)
+		vAssert(err != nil && len(ids) == 0, "a nil end point is an error")
+	}
+	vReach("end")
+}
